@@ -1,10 +1,11 @@
 (* C18/Model.v — executable definitions only.
    Part 1: redblack.Insert as coded (functional: returns the new subtree root) and the red-black validity predicate.
    Part 2: lib/comdoc sector allocation (makeFreeSectors, freeSectors, addStream, writeShortSector chain growth).
-   Part 3: an MS-CFB validator (cfb_check : bytes -> bool), written from the format specification, not from relic.
+   Part 3: an MS-CFB validator (cfb_check : bytes -> bool), written from the format specification, not from relic
+           (case conversion of names: C18/UnicodeSpec.v, the Unicode Character Database).
    Part 4: directory comparators (relic's lessDirEnt and the MS-CFB order) and the MSI digest order.
    Constants, struct layouts and loop-free decisions come from Generated/C18_gen.v (srcgen). *)
-From Relic Require Import Base.Prelude Base.Enc Generated.C18_gen.
+From Relic Require Import Base.Prelude Base.Enc Generated.C18_gen C18.UnicodeSpec.
 From Coq Require Import Sorting.Mergesort Orders.
 
 (* ================================================================== Part 1: red-black insertion *)
@@ -291,12 +292,16 @@ Definition dirent_ok (major : Z) (e : dirent) : bool :=
 Definition nth_ent (ents : list dirent) (i : Z) : option dirent :=
   if i <? 0 then None else nth_error ents (Z.to_nat i).
 
-(* 2.6.4: shorter names first; equal lengths compare upper-cased UTF-16 code units (simple case mapping; this table
-   covers ASCII and Latin-1, code units outside it are taken as caseless) *)
+(* 2.6.4: shorter names first; equal lengths compare upper-cased UTF-16 code units.  The upper-casing is the simple
+   (one-to-one) case conversion of the Unicode Character Database applied to single code units: the static table of
+   C18/UnicodeSpec.v (UnicodeData.txt, Simple_Uppercase_Mapping); surrogate halves are compared as they are *)
+Fixpoint lookup_upper (runs : list (Z * Z * Z)) (u : Z) : Z :=
+  match runs with
+  | [] => u
+  | (lo, hi, d) :: r => if (lo <=? u) && (u <=? hi) then u + d else lookup_upper r u
+  end.
 Definition upcase (u : Z) : Z :=
-  if (97 <=? u) && (u <=? 122) then u - 32
-  else if (224 <=? u) && (u <=? 254) && negb (u =? 247) then u - 32
-  else if u =? 255 then 376 else if u =? 181 then 924 else u.
+  if (55296 <=? u) && (u <=? 57343) then u else lookup_upper spec_upper_runs u.
 Fixpoint units_lt (a b : list Z) : bool :=
   match a, b with
   | x :: a', y :: b' => if upcase x <? upcase y then true else if upcase y <? upcase x then false else units_lt a' b'
@@ -467,11 +472,6 @@ Fixpoint alloc_tables (fuel : nat) (ss : Z) (sat msat msatlist : list Z) : resul
 
 (* lessDirEnt as coded: NameLength first, then the upper-cased UTF-16 code units of the two NameRunes arrays, index by index.
    unicode.ToUpper is the toolchain's table as srcgen reads it (go_upper_runs); the conditions and returns are srcgen's. *)
-Fixpoint lookup_upper (runs : list (Z * Z * Z)) (u : Z) : Z :=
-  match runs with
-  | [] => u
-  | (lo, hi, d) :: r => if (lo <=? u) && (u <=? hi) then u + d else lookup_upper r u
-  end.
 Definition go_to_upper (u : Z) : Z := lookup_upper go_upper_runs u.
 Definition upper_unit (u : Z) : Z :=
   if upper_unit_is_surrogate u then u else
@@ -494,7 +494,7 @@ Definition less_dirent (la lb : Z) (ua ub : list Z) : bool :=
 (* on names (code units without the terminator): NameLength = 2 * (units + terminator), array zero padded *)
 Definition relic_less (a b : list Z) : bool :=
   less_dirent (2 * (zlen a + 1)) (2 * (zlen b + 1)) a b.
-(* code units on which relic's upper-casing is the one of the MS-CFB order as transcribed in upcase *)
+(* relic's upper-casing of a code unit is the one of the MS-CFB order (upcase) *)
 Definition unit_agrees (u : Z) : bool := upper_unit u =? upcase u.
 
 (* unicode/utf16.Decode followed by string(): surrogate pairs combine, lone surrogates become U+FFFD *)
